@@ -507,6 +507,104 @@ def untyped_shapes_stream(ctx, res):
                 res.violate("C10:leak-in-tree", "a sensitive value appears in the masked tree", case)
 
 
+def repeated_rendering_stream(ctx, res):
+    """rendering is a function of the configuration and the options, not of earlier renderings: configurations held below containers of
+    UNTYPED fields (an AnyField, untyped dicts / lists, a dynamic key) and of typed ones are rendered several times in a row with
+    different masks and without one — every rendering carries its own mask, the unmasked ones are equal to the first unmasked one,
+    and the configuration still holds its configuration objects and their values afterwards"""
+    import cincoconfig as cc
+    plug = cc.Schema()
+    plug.name = cc.StringField(default="p")
+    plug.token = cc.StringField(sensitive=True)
+    for typed in (False, True):
+        P_ = cc.make_type(plug, "RepPlug") if typed else plug
+        s = cc.Schema(dynamic=True)
+        s.title = cc.StringField(default="demo")
+        s.plugins = cc.DictField(default=dict)
+        s.extra = cc.ListField(default=lambda: [])
+        s.anything = cc.Field()
+        s.typed = cc.ListField(cc.ListField(P_), default=lambda: [])
+        cfg = s()
+
+        def mk(n):
+            c = P_()
+            c.name = "plug%d" % n
+            c.token = "TOKEN-%02d-secret" % n
+            return c
+        cfg.plugins = {"enabled": [mk(1)], "disabled": [mk(2)]}
+        cfg.extra = [[mk(3)], {"k": [mk(4)]}]
+        cfg.anything = {"deep": [[mk(5)]]}
+        cfg.dyn = [mk(6)]
+        cfg.typed = [[mk(7)], [mk(8)]]
+        secrets = ["TOKEN-%02d-secret" % n for n in range(1, 9)]
+        try:
+            first = cfg.to_tree()
+        except Exception as e:  # noqa
+            res.case(None, kind="repeated-rendering:setup-%s" % type(e).__name__)
+            continue
+        seq = ["*", "<hidden>", None, "#", "", None, "*"]
+        for i, mask in enumerate(seq):
+            case = {"stream": "repeated-rendering", "config_type": typed, "rendering": i, "mask": mask, "earlier_masks": seq[:i]}
+            res.case(stable(case), kind="repeated-rendering")
+            try:
+                tree = cfg.to_tree(sensitive_mask=mask) if mask is not None else cfg.to_tree()
+            except Exception as e:  # noqa
+                res.violate("C10:rendering-depends-on-history", "a later rendering raised %s" % type(e).__name__, dict(case, error=str(e)[:100]))
+                break
+            text = repr(tree)
+            if mask is None:
+                if tree != first:
+                    res.violate("C10:nomask-altered", "an unmasked rendering differs from the first one (an earlier masked rendering left its mask behind)", dict(case))
+                    break
+                continue
+            want = mask * len(secrets[0]) if len(mask) == 1 else mask
+            leaked = [x for x in secrets if x in text]
+            foreign = [m for m in ("*" * 15, "#" * 15, "<hidden>") if m in text and m != want]
+            if leaked or foreign or (want and text.count(repr(want)) < 8):
+                res.violate("C10:rendering-depends-on-history", "a rendering does not carry its own mask on every sensitive value (values in clear, or an earlier rendering's mask)",
+                            dict(case, leaked=leaked[:3], foreign_masks=foreign, own_mask_count=text.count(repr(want)) if want else None))
+                break
+        held = [cfg.plugins["enabled"][0], cfg.extra[0][0], cfg.extra[1]["k"][0], cfg.anything["deep"][0][0], cfg.dyn[0], cfg.typed[0][0]]
+        if not all(hasattr(x, "_schema") and x.token.startswith("TOKEN-") for x in held):
+            res.violate("C10:rendering-altered-configuration", "after rendering, the configuration no longer holds its configuration objects / their values",
+                        {"stream": "repeated-rendering", "config_type": typed, "held_types": [type(x).__name__ for x in held]})
+
+
+def long_values_stream(ctx, res):
+    """a one-character mask is repeated to the value's LENGTH, whatever the length (a PEM key, a long token): sensitive values of 1 to
+    1700 characters at the root, in a section, in list items and below nested containers; every other mask is written verbatim"""
+    import cincoconfig as cc
+    peer = cc.Schema()
+    peer.name = cc.StringField(default="p")
+    peer.psk = cc.StringField(sensitive=True)
+    s = cc.Schema()
+    s.tls.private_key = cc.StringField(sensitive=True)
+    s.token = cc.StringField(sensitive=True)
+    s.peers = cc.ListField(peer, default=lambda: [])
+    s.groups = cc.DictField(cc.StringField(), cc.ListField(peer), default=dict)
+    for n in (1, 15, 63, 64, 65, 66, 128, 200, 1700):
+        cfg = s()
+        value = ("K%d-" % n + "x" * n)[:n]
+        cfg.tls.private_key = value
+        cfg.token = value
+        cfg.peers = [{"psk": "short"}, {"psk": value}]
+        cfg.groups = {"g": [{"psk": value}]}
+        for mask in ("#", "*", "<hidden>", ""):
+            case = {"stream": "long-values", "length": n, "mask": mask}
+            res.case(stable(case), kind="long-values")
+            want = mask * n if len(mask) == 1 else mask
+            try:
+                t = cfg.to_tree(sensitive_mask=mask)
+                got = [t["tls"]["private_key"], t["token"], t["peers"][1]["psk"], t["groups"]["g"][0]["psk"]]
+                doc = cfg.dumps(format="json", sensitive_mask=mask)
+            except Exception as e:  # noqa
+                res.violate("C10:mask-length", "rendering a long sensitive value raised %s" % type(e).__name__, dict(case, error=str(e)[:100]))
+                continue
+            if any(g != want for g in got) or (len(mask) == 1 and n > 3 and doc.count((mask * n).encode()) < 4):
+                res.violate("C10:mask-length", "a one-character mask is not repeated to the length of the sensitive value (or another mask is not written verbatim)",
+                            dict(case, lengths=[len(g) if isinstance(g, str) else None for g in got]))
+
+
 def nested_stream(ctx, res, n):
     """the walk that renders configurations held below nested containers (Config._render_nested) against the model's renderNested
     (Cinco/Config/Nested.lean, theorems in Props/C10b.lean): random nestings of lists, tuples and dicts holding real configurations
@@ -579,13 +677,15 @@ def nested_stream(ctx, res, n):
 
 def run(ctx, n_quick=150, n_thorough=5000):
     res = Result()
-    P.run_stream(ctx, res, "C10", ctx.n(n_quick, n_thorough), oracle, gen_ops=gen_ops, ops_len=(3, 8), schema_gen=gen_schema)
+    guard(res, "C10", lambda: P.run_stream(ctx, res, "C10", ctx.n(n_quick, n_thorough), oracle, gen_ops=gen_ops, ops_len=(3, 8), schema_gen=gen_schema))
     guard(res, "C10", marker_stream, ctx, res, ctx.n(8, 200))
     guard(res, "C10", nested_stream, ctx, res, ctx.n(300, 8000))
     guard(res, "C10", late_field_stream, ctx, res)
     guard(res, "C10", shapes_stream, ctx, res)
     guard(res, "C10", sensitive_container_stream, ctx, res)
     guard(res, "C10", untyped_shapes_stream, ctx, res)
+    guard(res, "C10", repeated_rendering_stream, ctx, res)
+    guard(res, "C10", long_values_stream, ctx, res)
     return res
 
 
